@@ -1,4 +1,5 @@
 import RnaVerif.Model.Convert
+import RnaVerif.Props.C01
 /-! # C13 — dot-bracket generation survives every solver configuration and solver fault -/
 namespace RnaVerif.Props.C13
 open RnaVerif RnaVerif.SecStr
@@ -35,5 +36,73 @@ theorem convert_fallback (es : List Entry) (present : Bool) (o : Outcome)
 
 example : noEdges Gen.conflictConvert (regions
     [⟨1,'A',5⟩,⟨2,'C',7⟩,⟨3,'G',0⟩,⟨4,'U',0⟩,⟨5,'A',1⟩,⟨6,'C',8⟩,⟨7,'G',2⟩,⟨8,'U',6⟩]) = false := by decide
+
+
+/-! ## losslessness in every branch (via C01) -/
+
+theorem conflictConvert_eq : Gen.conflictConvert = conflictSpec := by
+  funext k l m n; exact (C01.conflict_sites_agree k l m n).1
+
+theorem degree_zero {adj : Nat → Nat → Bool} {n v : Nat} (h : degree adj n v = 0) :
+    ∀ u, u < n → adj u v = false := by
+  intro u hu
+  unfold degree at h
+  have hnil : (List.range n).filter (fun u => adj u v) = [] := List.eq_nil_of_length_eq_zero h
+  cases hb : adj u v with
+  | false => rfl
+  | true =>
+    have : u ∈ (List.range n).filter (fun u => adj u v) := by
+      simp [List.mem_filter, hu, hb]
+    rw [hnil] at this; simp at this
+
+theorem adjOf_oob {c : ConfPred} {regs : List Region} {u v : Nat} (h : regs.length ≤ u) :
+    adjOf c regs u v = false := by
+  unfold adjOf
+  rw [List.getElem?_eq_none (by omega)]
+
+theorem proper_zeros_of_noEdges {c : ConfPred} {regs : List Region}
+    (h : noEdges c regs = true) : proper (adjOf c regs) (regs.map (fun _ => 0)) = true := by
+  unfold noEdges at h
+  rw [List.all_eq_true] at h
+  unfold proper
+  simp only [List.length_map, List.all_eq_true, List.mem_range, Bool.or_eq_true, Bool.not_eq_eq_eq_not,
+    Bool.not_true, bne_iff_ne, ne_eq]
+  intro u hu v hv
+  left
+  have hz := h v (by simpa using hv)
+  simp only [beq_iff_eq] at hz
+  exact degree_zero hz u hu
+
+/-- the fall-back branches return a lossless encoding (whenever FCFS finds levels, i.e. the
+structure needs at most 30 bracket types) -/
+theorem convert_lossless_fallback {es : List Entry} {lvs : List Nat} (hv : valid es = true)
+    (hf : fcfsLevels Gen.conflictFcfs Gen.fcfsAvail (regions es) = some lvs)
+    (present : Bool) (o : Outcome)
+    (hk : noEdges Gen.conflictConvert (regions es) = false)
+    (h : present = false ∨ o = .raises ∨ o = .notOptimal) :
+    ∃ s, convert es present o = .ok s ∧ C01.Lossless es s := by
+  rw [convert_fallback es present o hk h]
+  exact (C01.fcfs_lossless hv hf).2.2.2
+
+/-- the knot-free branch (no solver call) returns a lossless all-round-bracket encoding -/
+theorem convert_lossless_knotfree {es : List Entry} (hv : valid es = true) (o : Outcome)
+    (hk : noEdges Gen.conflictConvert (regions es) = true) :
+    ∃ s, convert es true o = .ok s ∧ C01.Lossless es s := by
+  unfold convert
+  simp only [Bool.not_true, Bool.false_eq_true, ↓reduceIte, hk]
+  apply C01.decode_mkDB hv (by simp) (by intro l hl; simp at hl; omega)
+  rw [← conflictConvert_eq]
+  exact proper_zeros_of_noEdges hk
+
+/-- with an optimal status, whatever 0/1 values were read back: if the resulting levels are proper
+and below 30 the encoding is lossless (properness is what C02 proves of a feasible solution) -/
+theorem convert_lossless_optimal {es : List Entry} (hv : valid es = true) (ones : List (Nat × Nat))
+    (hk : noEdges Gen.conflictConvert (regions es) = false)
+    (hlv : ∀ l ∈ readBack (regions es).length ones, l < 30)
+    (hp : proper (adjOf conflictSpec (regions es)) (readBack (regions es).length ones) = true) :
+    ∃ s, convert es true (.optimal ones) = .ok s ∧ C01.Lossless es s := by
+  unfold convert
+  simp only [Bool.not_true, Bool.false_eq_true, ↓reduceIte, hk]
+  exact C01.decode_mkDB hv (by simp [readBack]) hlv hp
 
 end RnaVerif.Props.C13
